@@ -108,7 +108,13 @@ func (w *vWorld) addPeer(sp vwPeerSpec) *vwPeer {
 	}
 	switch sp.kind {
 	case "rrc":
-		pr.RouteReflector = &api.RouteReflector{RouteReflectorClient: true, RouteReflectorClusterId: w.rid.String()}
+		pr.RouteReflector = &api.RouteReflector{RouteReflectorClient: true}
+		// every other client has the cluster-id configured explicitly (= the router-id, so the
+		// model needs no extra parameter); the others rely on the default (absent = router-id),
+		// so that code reading the configured copy instead of the effective one is seen
+		if len(w.peers)%2 == 0 {
+			pr.RouteReflector.RouteReflectorClusterId = w.rid.String()
+		}
 	case "rsc":
 		pr.RouteServer = &api.RouteServer{RouteServerClient: true}
 	}
